@@ -624,8 +624,9 @@ def paux_rules(chk, m, rid):
         def keep(self, ev):
             return False
     h = H()
-    h.should_inline = A.private_only
-    it = A.Interp(model=m, scope=fn, hooks=h, max_iter=8, exc_edges=False, inline=2, heap=True, generators=True)
+    # everything of the package that Compile.parse reaches is interpreted, except the steps the scenario answers itself
+    h.should_inline = lambda fname, node, info: info is None or info.name not in ('restore', 'persist', 'parse', 'fileLogging', 'updateLogLevels', '__init__')
+    it = A.Interp(model=m, scope=fn, hooks=h, max_iter=8, exc_edges=False, inline=4, heap=True, generators=True)
     config = {'general': {'renderer': 'HTML5', 'paux-dirs': ['/x']}, 'logging': {'logging': {}}, 'files': {'log': False}, 'document': {'title': None}}
     outs = it.run_function(fn, env={'filename': 'src/doc.tex', 'config': config})
     chk.paths += len(outs)
